@@ -140,4 +140,13 @@ def touch_base_classes():
                 getattr(obj, attr)
             except Exception:  # noqa
                 pass
+        # ... and instances of them are made (an application may well build a TrnRq of its own): with nothing, and with the one child
+        # the transaction wrappers' bases require
+        for kw in ({}, {"trnuid": "1"}, {"trnuid": "1", "status": None}):
+            try:
+                x = obj(**kw)
+                x.to_etree()
+                hasattr(x, "nosuchname")
+            except Exception:  # noqa
+                pass
     return len(seen) + 1
